@@ -90,7 +90,21 @@ func runStandin(repo, verif, prop, tier string, seed int64, si Standin) (map[str
 	rep["stats"] = stats
 	var fails []standinFailure
 	seen := map[string]bool{}
+	var failedNames []string
 	for _, m := range failRe.FindAllStringSubmatch(txt, -1) {
+		failedNames = append(failedNames, m[1])
+	}
+	for _, m := range failRe.FindAllStringSubmatch(txt, -1) {
+		// a parent test fails whenever one of its sub-tests does: report the sub-tests (root causes) only
+		isParent := false
+		for _, n := range failedNames {
+			if strings.HasPrefix(n, m[1]+"/") {
+				isParent = true
+			}
+		}
+		if isParent {
+			continue
+		}
 		if !seen[m[1]] {
 			seen[m[1]] = true
 			o := txt
